@@ -32,7 +32,7 @@ fn case_strategy() -> BoxedStrategy<Case> {
         prop_oneof![2 => Just(None), 1 => (any::<u16>(), any::<u16>()).prop_map(Some)],
         freq_strategy(),
         any::<bool>(),
-        prop::sample::select(vec![1u8, 1, 2, 4]),
+        prop::sample::select(vec![1u8, 1, 2, 3, 4, 8]),
         proptest::collection::vec(any::<u16>(), 2..6),
     )
         .prop_map(|(t, dup, freq, allow_ambiguous, threads, perm)| Case { t, dup, freq, allow_ambiguous, threads, perm })
